@@ -437,7 +437,10 @@ def r45s(F):
             params = {l[1] for l in labs if l[0] == "param"}
             from_strict = "strict" in fields or any("strict" in cnames.get(p_, ()) for p_ in params)
             other = sorted(f for f in fields if f in ("validate_mode", "validate", "is_module", "success", "reserved"))
-            ok = from_strict and not other
+            # a bool parameter under another name is the constructor's business (what is passed for it is a matter of its call
+            # sites); what is reported is a neighbouring flag or no source at all
+            from_param = bool(params) and not fields and all(fn.local_ty(p_) == "bool" for p_ in params)
+            ok = (from_strict or from_param) and not other
             r.inst("%s:field-strict#%d" % (short, k_), fn.where(b), ok,
                    "strict := a strict field / parameter" if ok else
                    "%s fills the `strict` field from %s: the copy evaluates in another mode than the original (module bodies and "
